@@ -1079,6 +1079,8 @@ private:
       std::unique_lock<std::shared_mutex> wl(_sessionRwMutex);
       _sessions.clear();
     }
+    // Session tags point into the sessions just destroyed; the engine can be start()ed again and fd numbers are reused.
+    _fdTags.clear();
 
     // Close listeners
     std::vector<Listener *> listenersToClose;
